@@ -2,5 +2,6 @@ SPECIFICATION Spec
 CONSTANTS
   Prop = "ALL"
   DevStarCollision = FALSE
+  DevMergeNoBigram = FALSE
 POSTCONDITION Accepted
 CHECK_DEADLOCK FALSE
